@@ -199,3 +199,53 @@ func addSelfTest(res *propResult, id, repo string) {
 	res.extra["mutant_outcomes"] = outs
 	fmt.Printf("%s self-test: %d mutants, %d caught, %d missed, %d skipped\n", id, len(outs), caught, missed, skipped)
 }
+
+// addCallGraphCrossCheck (thorough tier): the quick rules enumerate call sites of sensitive functions by static
+// callee. A dynamic path (method value, function-typed field, interface dispatch) would escape that enumeration, so
+// here every VTA in-edge of those functions must come from a static call instruction.
+func addCallGraphCrossCheck(res *propResult, repo string) {
+	p, err := load(loadOpts{dir: repo})
+	if err != nil {
+		res.extra["callgraph_crosscheck"] = "load failed: " + err.Error()
+		return
+	}
+	sensitive := []struct{ rel, recv, name string }{
+		{relCachePkg, "Cache", "Store"}, {relCachePlugin, "", "saveRespToCache"}, {relCachePlugin, "", "getMsgKey"}, {relCachePlugin, "", "getRespFromCache"},
+		{relTransport, "TraditionalDnsConn", "addQueueC"}, {relTransport, "TraditionalDnsConn", "exchange"}, {relTransport, "TraditionalDnsConn", "writeQuery"},
+		{relTransport, "ReuseConnTransport", "setIdle"}, {relTransport, "reusableConn", "exchange"},
+		{relQctx, "Context", "SetResponse"}, {relNetlist, "List", "Append"}, {relNetlist, "List", "Sort"},
+		{relTransport, "", "copyMsgWithLenHdr"}, {relTransport, "", "copyMsg"}, // PackTCPBuffer is handed to the handler as a function value on purpose (C16-W1 checks that hand-over)
+		{relUpstream, "", "parseDialAddr"}, {relUpstream, "", "tryTrimIpv6Brackets"}, {relQctx, "", "newOpt"},
+	}
+	g := p.vta()
+	type row struct {
+		Func    string `json:"func"`
+		Static  int    `json:"static_call_sites"`
+		Dynamic int    `json:"dynamic_in_edges"`
+	}
+	var rows []row
+	for _, sfn := range sensitive {
+		f := p.Func(sfn.rel, sfn.recv, sfn.name)
+		if f == nil {
+			continue
+		}
+		n := g.Nodes[f]
+		r := row{Func: funcName(f)}
+		if n != nil {
+			for _, e := range n.In {
+				if e.Site == nil {
+					continue
+				}
+				if sc := staticCallee(e.Site); sc == f {
+					r.Static++
+				} else if e.Caller != nil && e.Caller.Func != nil && inMosdns(e.Caller.Func) {
+					r.Dynamic++
+					res.obs = append(res.obs, Obligation{Rule: res.prop + "-CG", Construct: "dynamic-call:" + funcName(f), Pos: p.pos(e.Site.Pos()), Verdict: "undecided",
+						Detail: "a dynamic call path (method value / function value / interface dispatch) reaches " + funcName(f) + " from " + funcName(e.Caller.Func) + "; the call-site enumerations of the quick rules do not cover it", Config: "vta"})
+				}
+			}
+		}
+		rows = append(rows, r)
+	}
+	res.extra["callgraph_crosscheck"] = rows
+}
